@@ -548,6 +548,8 @@ def run(fx, tier):
     from c10 import install_only_when_open_rule
     install_only_when_open_rule(fx, v, 'C05')
     rule_batch_completion(fx, v)
+    from c02 import queue_purge_rule
+    queue_purge_rule(fx, v, 'C05', 'R-DRAIN-Q')
     v.assumptions = [
         'Boost.Asio: an initiation invokes its handler exactly once and never inline; post/defer never run inline; '
         'parallel_group(wait_for_one) cancels the losing operation',
